@@ -34,6 +34,8 @@ def unit_sets(g, base=0):
         return [[base + 6 + i for i in range(4)]]
     if k.startswith("SE_1_3"):
         return [[base + 3 + i for i in range(4)]]
+    if k.startswith("SE_3_3"):
+        return [[base + 9 + i for i in range(4)]]
     return []      # C1 (scaled rotations) and vectors carry no constraint
 
 
@@ -111,7 +113,7 @@ def witnesses(gs, which):
 
 def check_identities(rep, tier, which):
     rule = "A." + which
-    gs = [g for g in groups.catalogue("quick")] + [g for g in groups.catalogue("thorough") if g.key == "B_commutative"]
+    gs = [g for g in groups.catalogue("quick")] + [g for g in groups.catalogue("thorough") if g.key in ("B_commutative", "SE_3_3d")]
     if tier == "thorough":
         gs += [g for g in groups.catalogue("thorough") if g.key in ("SE_1_3d", "B_SE3d_SO2d_V3d_C1d", "B_nested")]
     rep.rule(rule, "algebraic identity holds as an exact polynomial identity modulo the representation constraints, on every path", minimum={"C04": 5}.get(which, 20))
@@ -135,6 +137,12 @@ def check_identities(rep, tier, which):
             return "%s%d_%d" % ("x" if roles[p] == "rep" else "t", p, off // 8)
         try:
             paths = poly.evaluate(ff, cell_var, cons)
+        except poly.Narrowing as ex:
+            rep.instance(rule, g.ctype, meta["name"], ok=False, sample={"witness": fname, "identity": meta["what"]})
+            rep.violation(Finding(rule, g.ctype, meta["name"],
+                                  "%s: a value is narrowed to a lower floating-point precision inside this double-precision operation (`%s`); "
+                                  "the identity then only holds to single precision" % (meta["what"], str(ex)[:80]), None, None, detail={"witness": fname}))
+            continue
         except (poly.Unsupported, ir.Unresolved) as ex:
             rep.broke("%s: cannot abstract into the polynomial domain: %s" % (fname, ex))
             continue
